@@ -32,3 +32,12 @@ Proof.
     + rewrite Nat.add_0_r. reflexivity.
     + rewrite Nat.add_succ_r. cbn [skipn]. apply IH.
 Qed.
+
+Lemma NoDup_app' {X} (a b : list X) : NoDup a -> NoDup b -> (forall x, In x a -> ~ In x b) -> NoDup (a ++ b).
+Proof.
+  induction a as [|x a IH]; intros Ha Hb H; [exact Hb|].
+  inversion Ha as [|? ? Hx Ha']; subst. cbn [app]. constructor.
+  - rewrite in_app_iff. intros [Hin|Hin]; [exact (Hx Hin)|]. apply (H x); [left; reflexivity|exact Hin].
+  - apply IH; [exact Ha'|exact Hb|]. intros y Hy. apply H. right; exact Hy.
+Qed.
+
